@@ -511,6 +511,54 @@ def rule_run_domain(chk, db, cfgname, rid):
     chk.count(rid.lower() + '.comparisons', n)
 
 
+def rule_prop_domain(chk, db, cfgname, rid):
+    chk.rule(rid, 'the property-vertex indices stored on halfedges stay inside the property table: a function that '
+             'empties Impl::properties_ while keeping the halfedges resets every halfedge property index to its start '
+             'vertex (SetProp(e, Start(e))) - NumPropVert() falls back to NumVert() when there are no properties, so '
+             'stale indices run past every table sized by it')
+    IMPL = 'manifold::Manifold::Impl'
+    n = 0
+    for f in db.functions.values():
+        if not f.get('blocks') or not f['file'].startswith('src/'):
+            continue
+        fam = None
+        for b in f['blocks']:
+            for e in b['ev']:
+                if e.get('k') == 'call' and T.short(e.get('fn', '')) == 'clear' and e.get('recv') is not None:
+                    r = T.strip(e['recv'])
+                    if not (r.get('k') == 'mem' and r.get('n') == 'properties_' and r.get('cls') == IMPL):
+                        continue
+                    obj = T.pstr(r['base'])
+                    fam = fam or [f] + [g for k, g in db.functions.items() if k.startswith(f['key'] + '::<lambda@')]
+                    # the halfedges go too (MakeEmpty-like), or their property indices are reset
+                    cleared_he = reset = False
+                    for ff in fam:
+                        for bb in ff['blocks']:
+                            for ee in bb['ev']:
+                                if ee.get('k') != 'call' or ee.get('recv') is None:
+                                    continue
+                                rr = T.strip(ee['recv'])
+                                if rr.get('k') == 'mem' and rr.get('n') == 'halfedge_' and T.pstr(rr['base']) == obj:
+                                    m = T.short(ee.get('fn', ''))
+                                    if m == 'clear':
+                                        cleared_he = True
+                                    if m == 'SetProp' and len(ee.get('args', [])) == 2 and any(
+                                            isinstance(y, dict) and y.get('k') == 'call' and
+                                            T.short(y.get('fn', '')) == 'Start' for y in T.walk(ee['args'][1])):
+                                        reset = True
+                    n += 1
+                    ok = cleared_he or reset
+                    chk.obligation(ok, {'function': f['name'][:70], 'line': e.get('ln'), 'object': obj,
+                                        'halfedges cleared too': cleared_he, 'property indices reset to Start(e)': reset})
+                    if not ok:
+                        chk.violation(rid, f, '%s.properties_ emptied, halfedge property indices kept' % obj,
+                                      'properties_ of %s is cleared but its halfedges keep their old property-vertex '
+                                      'indices: with no properties NumPropVert() == NumVert(), so the export lists '
+                                      'vertex indices beyond NumVert() and the next SetProperties overruns its table'
+                                      % obj, line=e.get('ln'), cfg=cfgname)
+    chk.count(rid.lower() + '.property_table_resets', n)
+
+
 def main(chk, tier):
     import db as D
     import c06
@@ -527,6 +575,7 @@ def main(chk, tier):
         rule_runs(chk, db, cfgname, 'C07.3')
         rule_backside(chk, db, cfgname, 'C07.4')
         rule_offsets(chk, db, cfgname, 'C07.5')
+        rule_prop_domain(chk, db, cfgname, 'C07.6')
     n = len(configs)
     chk.floor('c07.1.attribute_flows', 4 * n)
     chk.floor('c07.1b.group_members', 12 * n)
